@@ -243,6 +243,39 @@ API_TEMPLATES = {
 }
 
 
+# (document, text that must survive in the output)
+BRACE_INPUTS = [('```{r}\nx\n```\n', 'language-{r}'), ('~~~ {.py}\nx\n~~~\n', 'language-{.py}'), ('[a](/u "{x}")\n', 'title="{x}"'),
+                ('![a](/u "{0}")\n', 'title="{0}"'), ('[a]({x})\n', '>a</a>'), ('<http://a/{x}>\n', '</a>'), ('# {x}\n', '{x}'),
+                ('`{x}`\n', '{x}'), ('{x}\n', '{x}'), ('[*a*](/u "{inner}")\n', 'title="{inner}"'), ('| {x} |\n|---|\n', '{x}')]
+
+
+def format_replay(repo, renderer='mistletoe.HtmlRenderer'):
+    """Native search for an input on which a format template that holds document text fails: documents with
+    braces in every attribute / text position, rendered by the real renderer of the tree."""
+    import subprocess
+    import json
+    code = ('import sys, json; sys.path.insert(0, %r); import mistletoe, importlib\n'
+            'mod, cls = %r.rsplit(".", 1); R = getattr(importlib.import_module(mod), cls)\n'
+            'out = None\n'
+            'for md, needle in %r:\n'
+            '    try:\n'
+            '        r = mistletoe.markdown(md, R)\n'
+            '        if needle not in r:\n'
+            '            out = {"api_input": md, "output": r, "why": "brace text lost or replaced: expected " + needle}; break\n'
+            '    except Exception as e:\n'
+            '        out = {"api_input": md, "raised": type(e).__name__ + ": " + str(e)}; break\n'
+            'print(json.dumps(out))' % (repo, renderer, BRACE_INPUTS))
+    p = subprocess.run(['/venv/bin/python', '-c', code], capture_output=True, text=True)
+    try:
+        out = json.loads(p.stdout)
+    except Exception:
+        return {'reproduced': False, 'error': p.stderr[-400:]}
+    if out is None:
+        return {'reproduced': False, 'reason': 'no brace document of the replay list fails'}
+    out['reproduced'] = True
+    return out
+
+
 def api_replay(repo, method, src):
     key = (method, src)
     if key not in API_TEMPLATES:
@@ -444,6 +477,10 @@ def sink_lemmas(repo):
                         continue
                     for variant in flatten(val[1]):
                         viol.extend(scan_html(variant, mname))
+                for htype, hsrc, hline in interp.format_on_holes:
+                    if htype != 'CONST':
+                        viol.append(Violation('format-template', 'str.format is called on a string that holds document text '
+                                              '(hole %s, line %d): braces in it are parsed as format fields' % (htype, hline), hsrc))
                 ms = (time.time() - t1) * 1000
                 # one obligation per (kind, source) so that findings can be keyed precisely
                 groups = {}
@@ -456,8 +493,8 @@ def sink_lemmas(repo):
                 else:
                     for (kind, srcx), v in sorted(groups.items()):
                         name = '%s:%s:%s' % (base, kind, srcx or '-')
-                        native = api_replay(repo, mname, srcx)
-                        results.append(mk(name, 'refuted', ms, props, fn='%s.%s' % (cls, mname),
+                        native = api_replay(repo, mname, srcx) if kind != 'format-template' else format_replay(repo)
+                        results.append(mk(name, 'refuted', ms, props + (['C01'] if kind == 'format-template' else []), fn='%s.%s' % (cls, mname),
                                           text='sink typing of %s' % mname, model={'violation': v.detail, 'hole': srcx},
                                           native=native))
                 if mname in ('render_quote', 'render_list'):
@@ -483,5 +520,5 @@ def run_method(interp, fdef, st0):
 
 LEMMAS = {
     'homo:escape_html_text': (homomorphism_lemma, ['C08']),
-    'sink:html': (sink_lemmas, ['C08']),
+    'sink:html': (sink_lemmas, ['C08', 'C01']),
 }
